@@ -111,7 +111,7 @@ func (P) ClassifyMismatch(line, goOut, leanOut string) string {
 		off = 2
 	case "runv":
 		off = 3
-	case "runtx", "valtx":
+	case "runtx", "valtx", "multi":
 		off, whole = 2, true
 	default:
 		return ""
